@@ -7,3 +7,4 @@ open IrVerif.SymExpr
 #print axioms IrVerif.SymExpr.C16_tokenize_render
 #print axioms IrVerif.SymExpr.C16_partial
 #print axioms IrVerif.SymExpr.C16_int_ops
+#print axioms IrVerif.SymExpr.C16_int_eval
